@@ -162,6 +162,10 @@ class NumInterp:
         if k == "c":
             bits = o["bits"]
             u = int(o["u"])
+            # a constant with the top bit set is read as the negative number it almost always is (x + -8, x * -1);
+            # unsigned readers (zext, udiv, unsigned compares, uitofp) convert back through as_unsigned()
+            if bits > 1 and u >= (1 << (bits - 1)):
+                u -= (1 << bits)
             v = const_av("int", bits, u, self.inputs)
             return v
         if k == "cf":
@@ -174,6 +178,9 @@ class NumInterp:
                 return self.val[i]
             if k == "arg":
                 if i not in self.inputs:
+                    at = self.fn["args"][o["idx"]]["type"]
+                    if at.get("k") == "ptr":
+                        return self.top_int(64)
                     raise Unsupported("argument %s has no declared range" % i)
                 v = self.arg_value(i)
                 self.val[i] = v
@@ -294,6 +301,21 @@ class NumInterp:
                     self.div_check(inst, b_)
                 return self.top_int(b)
         if op in ("add", "sub"):
+            # a constant operand is known only modulo 2^b: choose the reading (c or c +- 2^b) under which the result is representable
+            for which in (0, 1):
+                cst, oth = (b_, a) if which == 0 else (a, b_)
+                if cst.is_const() and not oth.top and inst["ops"][1 if which == 0 else 0]["k"] == "c":
+                    for alt in (cst.lo, cst.lo + (1 << b), cst.lo - (1 << b)):
+                        cv = const_av("int", b, alt, self.inputs)
+                        x, y = (oth, cv) if which == 0 else (cv, oth)
+                        lo_, hi_ = (x.lo + y.lo, x.hi + y.hi) if op == "add" else (x.lo - y.hi, x.hi - y.lo)
+                        if fits_u(lo_, hi_, b) or fits_s(lo_, hi_, b):
+                            if which == 0:
+                                b_ = cv
+                            else:
+                                a = cv
+                            break
+                    break
             s = 1 if op == "add" else -1
             if s > 0:
                 lo, hi = a.lo + b_.lo, a.hi + b_.hi
@@ -375,6 +397,19 @@ class NumInterp:
             return AV("int", b, lo, hi, a.lo_w, a.hi_w, a.mono, aff, elo, ehi)
         if op in ("urem", "srem"):
             self.div_check(inst, b_)
+            if op == "srem" and b_.is_const():
+                c = self.as_signed(b_, inst).lo
+                sa = self.as_signed(a, inst)
+                if c > 0 and not sa.top:
+                    if sa.is_const():
+                        x = sa.lo
+                        q = abs(x) // c * (1 if x >= 0 else -1)
+                        return const_av("int", b, x - q * c, self.inputs)
+                    if 0 <= sa.lo and sa.hi < c:
+                        return sa
+                    lo = 0 if sa.lo >= 0 else -(c - 1)
+                    hi = 0 if sa.hi <= 0 else (c - 1)
+                    return AV("int", b, lo, hi, None, None, {i: None for i in self.inputs}, None, None, None)
             if op == "urem" and b_.is_const() and b_.lo > 0:
                 a = self.as_unsigned(a, inst)
                 if not a.top:
@@ -798,6 +833,11 @@ class NumInterp:
         if len(vals) == 1:
             return vals[0]
         k, b = vals[0].kind, vals[0].bits
+        if k == "int" and b > 1 and any(v.hi > (1 << (b - 1)) - 1 for v in vals if not v.top):
+            # mixed readings: values known to be used as unsigned (some exceed the signed maximum); re-read wholly negative ones
+            vals = [AV(v.kind, v.bits, v.lo + (1 << b), v.hi + (1 << b), v.lo_w, v.hi_w, v.mono, v.aff,
+                       None if v.elo is None else v.elo + (1 << b), None if v.ehi is None else v.ehi + (1 << b))
+                    if (not v.top and v.hi < 0) else v for v in vals]
         lo = min(v.lo for v in vals)
         hi = max(v.hi for v in vals)
         lo_w = next((v.lo_w for v in vals if v.lo == lo and v.lo_w is not None), None)
@@ -938,6 +978,14 @@ class NumInterp:
                         self.val[inst["id"]] = v
                 elif op == "unreachable":
                     pass
+                elif op in ("getelementptr", "alloca", "inttoptr") or (op in ("bitcast", "load", "phi", "select") and inst["type"].get("k") == "ptr"):
+                    self.val[inst["id"]] = self.top_int(64)
+                elif op == "store":
+                    pass
+                elif op == "load":
+                    self.val[inst["id"]] = self.top_float(inst["type"]["bits"]) if inst["type"].get("k") == "float" else self.top_int(inst["type"].get("bits", 64))
+                elif op == "ptrtoint":
+                    self.val[inst["id"]] = self.top_int(inst["type"].get("bits", 64))
                 else:
                     raise Unsupported("opcode " + op)
         self.ret = self.join(rets) if rets else None
